@@ -105,12 +105,12 @@ theorem schedule_pcinv (maxArr : Nat) (sc : Script) (fuel : Nat) (s : EState) (h
   | succ n ih =>
     have harr : ∀ (x : EState) (k : String), Grow x { x with arrivals := x.arrivals ++ [k] } :=
       fun _ _ => ⟨rfl, rfl, 0, rfl, rfl⟩
-    have hstep : ∀ (x : EState), PcInv x →
+    have hstep : ∀ (x : EState) (l : List Action), PcInv x →
         PcInv (if x.arrivals.length ≥ maxArr then
             applyAction (flushCompletions { x with arrivals := x.arrivals ++ [arrivalKind x.pc] }) .halt
-          else (scriptAt sc x.arrivals.length).foldl applyAction
+          else l.foldl applyAction
             (flushCompletions { x with arrivals := x.arrivals ++ [arrivalKind x.pc] })) := by
-      intro x hx
+      intro x l hx
       have h1 : PcInv (flushCompletions { x with arrivals := x.arrivals ++ [arrivalKind x.pc] }) :=
         ((harr x _).trans (grow_of_stk (stk_flushCompletions _))).pcinv hx
       split
@@ -126,10 +126,10 @@ theorem schedule_pcinv (maxArr : Nat) (sc : Script) (fuel : Nat) (s : EState) (h
         · exact ih _ (advance_pcinv _ _ h)
         · exact h
       · exact ih _ (advance_pcinv _ _ h)
-      · exact ih _ (advance_pcinv _ _ (hstep s h))
-      · exact ih _ (advance_pcinv _ _ (hstep s h))
-      · exact ih _ (advance_pcinv _ _ (hstep s h))
-      · exact ih _ (advance_pcinv _ _ (hstep s h))
+      · exact ih _ (advance_pcinv _ _ (hstep s _ h))
+      · exact ih _ (advance_pcinv _ _ (hstep s _ h))
+      · exact ih _ (advance_pcinv _ _ (hstep s _ h))
+      · exact ih _ (advance_pcinv _ _ (hstep s _ h))
       all_goals
         simp only []
         have hf : PcInv (flushCompletions s) := (grow_of_stk (stk_flushCompletions s)).pcinv h
